@@ -17,7 +17,9 @@ for d in sorted(glob.glob(os.path.join(VERIF, "seeded", "*"))):
     files = sorted(set(re.findall(r"^\+\+\+ b/(\S+)", diff, re.M)))
     first = (m.get("what_it_needs_to_manifest") or "").strip().split("\n")[0][:150].replace("|", "/")
     caught = m.get("caught_by", {})
-    how = "; ".join(f"**{p}** `{(v.split(':', 1)[0].replace('key=', '') + ':' + v.split(':', 2)[1]) if v.count(':') > 1 else v}`"[:90] for p, v in caught.items()) or "**missed**"
+    suite = (m.get("confirmed") or {}).get("baseline_suite_with_change") or ""
+    invalid = not suite.startswith("2129 passed")
+    how = "; ".join(f"**{p}** `{(v.split(':', 1)[0].replace('key=', '') + ':' + v.split(':', 2)[1]) if v.count(':') > 1 else v}`"[:90] for p, v in caught.items()) or ("not a valid seeded change on the current tree (baseline suite with it: " + (suite[:40] or "does not apply") + ")" if invalid else "**missed**")
     rows.append(f"| {name} | {', '.join(os.path.basename(f) for f in files)} | {first} | {how} |")
 table = ("| seeded change | file(s) | what it is (first line of the author's note) | caught by (check, first violation key) |\n|---|---|---|---|\n" + "\n".join(rows))
 p = os.path.join(VERIF, "DESIGN.md")
